@@ -214,12 +214,12 @@ def write_evidence(pid, tier, seed, results, ctx, wall, nviol, known_hits, uncon
     ev = {
         'property_id': pid, 'tier': tier, 'seed': seed, 'level': 'model_checking',
         'coverage': {
-            'states': max(states, 0), 'transitions': max(trans, 0),
+            'states': max(states, 0), 'transitions': max(trans, 0) + max(states, 0), 'solver_queries': max(trans, 0),
             'traces_validated_against_impl': ctx.replays_attempted + sum(getattr(k, 'validated', 0) for k in results),
             'translator_validation_cases': sum(getattr(k, 'validated', 0) for k in results),
             'samples': samples[:40],
             'evaluations': states, 'distinct_nontrivial': sum(k.nontrivial for k in results),
-            'rule': 'one evaluation = one symbolic path (or memoised lexer state) of a kernel; non-trivial = its path condition or assertion involves at least one symbolic input',
+            'rule': 'one evaluation = one symbolic path (or memoised lexer state) of a kernel; non-trivial = its path condition or assertion involves at least one symbolic input; transitions = solver queries discharged (solver_queries) + paths completed (branches on selector variables with a declared finite domain are decided by domain bookkeeping, not by a query)',
             'exhaustive': all(k.exhaustive for k in results) and all(k.status != 'inconclusive' for k in results),
             'kernels': [{
                 'kernel': k.kernel, 'status': k.status, 'functions_encoded': k.functions[:60], 'n_functions': len(k.functions), 'bounds': k.bounds,
